@@ -626,10 +626,11 @@ class Sym:
             bound: Dict[str, str] = {}
             gens = []
             level = len(self.scope)
+            first_iter = self.canon(e.generators[0].iter, at, depth + 1)      # evaluated in the enclosing scope (as Python does), before the comprehension's own names exist
             self.scope.append(bound)
             try:
-                for g in e.generators:
-                    it = self.canon(g.iter, at, depth + 1)
+                for gi, g in enumerate(e.generators):
+                    it = first_iter if gi == 0 else self.canon(g.iter, at, depth + 1)
                     for n, _ in _targets(g.target):
                         bound.setdefault(n, f"_c{level}_{len(bound)}")
                     conds = [cmp_key(self.cmp(c, at, depth + 1)) for c in g.ifs]
